@@ -2,7 +2,7 @@ HOOKS = {
     "guard": "fuse_backend_rs_verif",
     "enable": "RUSTFLAGS='--cfg fuse_backend_rs_verif' (set in /verif/harness/.cargo/config.toml; the harness is a path-dependent crate on /repo)",
     "baseline_off_cmd": "cd /repo && cargo nextest run --workspace --no-fail-fast --test-threads 8 --offline || cargo test --workspace --no-fail-fast --offline",
-    "source_commits": ["ed1647a verif hook: H2 verif_table_sizes() (passthrough/mod.rs, inode_store.rs, mount_fd.rs)", "d1dd73e verif hook: H1 verif_yield(point) / verif_set_yield (passthrough/mod.rs)"],
+    "source_commits": ["ed1647a verif hook: H2 verif_table_sizes() (passthrough/mod.rs, inode_store.rs, mount_fd.rs)", "d1dd73e verif hook: H1 verif_yield(point) / verif_set_yield (passthrough/mod.rs)", "ef8a8c2 verif hook: expose skip_to_cookie / last_cookie_in_buf / only_dot_entries (passthrough/sync_io.rs)", "49ece77 verif hook: doc comments for the do_readdir buffer-helper hooks"],
     "add_only": True,
 }
 ENGINES = [
